@@ -11,7 +11,7 @@ namespace c18 {
 // everything it observed.  `scale` = 0 quick, 1 thorough (longer bodies).
 typedef uint64_t (*WorkFn)(int scale);
 
-enum Kind { LIBTINS = 0, CANARY_RACY = 1, CANARY_GUARDED = 2 };
+enum Kind { LIBTINS = 0, CANARY_RACY = 1, CANARY_GUARDED = 2, CANARY_LOCKED = 3 };
 
 struct Workload {
     const char* name;
